@@ -38,7 +38,8 @@ type concDoc struct {
 
 type concWork struct {
 	isJSON bool
-	atl    atlas.Atlas
+	atl    atlas.Atlas // used by the sequential reference run
+	atlC   atlas.Atlas // a fresh atlas built from the same entries: its first use is the concurrent one
 	items  []concItem
 	mbytes [][]byte // sequential marshal results (nil: error)
 	docs   []concDoc
@@ -52,7 +53,7 @@ func (w *concWork) opts() (refmt_EncodeOptions, refmt_DecodeOptions) {
 }
 
 // one job = one result string; kind 0 marshal item i, 1 unmarshal item i's bytes, 2 clone item i, 3 unmarshal doc i
-func (w *concWork) job(kind, i int, m refmt.Marshaller, mbuf *bytes.Buffer, cl refmt.Cloner) (res string) {
+func (w *concWork) job(atl atlas.Atlas, kind, i int, m refmt.Marshaller, mbuf *bytes.Buffer, cl refmt.Cloner) (res string) {
 	defer func() {
 		if r := recover(); r != nil {
 			res = "panic"
@@ -69,7 +70,7 @@ func (w *concWork) job(kind, i int, m refmt.Marshaller, mbuf *bytes.Buffer, cl r
 			err = m.Marshal(it.v.Interface())
 			bs = append([]byte{}, mbuf.Bytes()...)
 		} else {
-			bs, err = refmt.MarshalAtlased(eo, it.v.Interface(), w.atl)
+			bs, err = refmt.MarshalAtlased(eo, it.v.Interface(), atl)
 		}
 		if err != nil {
 			return "merr"
@@ -81,7 +82,7 @@ func (w *concWork) job(kind, i int, m refmt.Marshaller, mbuf *bytes.Buffer, cl r
 			return ""
 		}
 		target := reflect.New(it.t.rt)
-		if err := refmt.UnmarshalAtlased(do, w.mbytes[i], target.Interface(), w.atl); err != nil {
+		if err := refmt.UnmarshalAtlased(do, w.mbytes[i], target.Interface(), atl); err != nil {
 			return "uerr"
 		}
 		return "u:" + printValue(it.t, target.Elem())
@@ -92,7 +93,7 @@ func (w *concWork) job(kind, i int, m refmt.Marshaller, mbuf *bytes.Buffer, cl r
 		if cl != nil {
 			err = cl.Clone(it.v.Interface(), dst.Interface())
 		} else {
-			err = refmt.CloneAtlased(it.v.Interface(), dst.Interface(), w.atl)
+			err = refmt.CloneAtlased(it.v.Interface(), dst.Interface(), atl)
 		}
 		if err != nil {
 			return "cerr"
@@ -101,7 +102,7 @@ func (w *concWork) job(kind, i int, m refmt.Marshaller, mbuf *bytes.Buffer, cl r
 	default:
 		d := w.docs[i]
 		target := reflect.New(d.t.rt)
-		if err := refmt.UnmarshalAtlased(cbor.DecodeOptions{}, d.bs, target.Interface(), w.atl); err != nil {
+		if err := refmt.UnmarshalAtlased(cbor.DecodeOptions{}, d.bs, target.Interface(), atl); err != nil {
 			return "derr"
 		}
 		return "d:" + printValue(d.t, target.Elem())
@@ -171,6 +172,9 @@ func parseConc(payload string) (*concWork, string) {
 	if w.atl, err = ad.build(); err != nil {
 		return nil, "harness-error atlas build"
 	}
+	if w.atlC, err = ad.build(); err != nil {
+		return nil, "harness-error atlas build"
+	}
 	items, err := parseSx(parts[2])
 	if err != nil {
 		return nil, "harness-error items"
@@ -238,7 +242,7 @@ func runConc(payload string) string {
 	js := w.jobs()
 	seq := make([]string, len(js))
 	for k, j := range js {
-		seq[k] = w.job(j.kind, j.i, nil, nil, nil)
+		seq[k] = w.job(w.atl, j.kind, j.i, nil, nil, nil)
 		if seq[k] == "panic" {
 			return "panic"
 		}
@@ -260,8 +264,8 @@ func runConc(payload string) string {
 			defer wg.Done()
 			r := rand.New(rand.NewSource(int64(g)*7919 + 1))
 			var mbuf bytes.Buffer
-			m := refmt.NewMarshallerAtlased(eo, &mbuf, w.atl)
-			cl := refmt.NewCloner(w.atl)
+			m := refmt.NewMarshallerAtlased(eo, &mbuf, w.atlC)
+			cl := refmt.NewCloner(w.atlC)
 			<-start
 			for round := 0; round < rounds; round++ {
 				order := r.Perm(len(js))
@@ -269,9 +273,9 @@ func runConc(payload string) string {
 					j := js[k]
 					var got string
 					if (g+round)%2 == 0 {
-						got = w.job(j.kind, j.i, m, &mbuf, cl) // this goroutine's long-lived instances
+						got = w.job(w.atlC, j.kind, j.i, m, &mbuf, cl) // this goroutine's long-lived instances
 					} else {
-						got = w.job(j.kind, j.i, nil, nil, nil) // package-level helpers (fresh instances)
+						got = w.job(w.atlC, j.kind, j.i, nil, nil, nil) // package-level helpers (fresh instances)
 					}
 					if got != seq[k] {
 						mu.Lock()
